@@ -78,7 +78,7 @@ theorem durB10_rt (d : Int64) (p : Nat) (hp : p ∈ bases) :
 
 example : (1000 : Nat) ∈ bases := by decide
 
-/-- Full statement not yet proved: ISO 8601 durations round-trip for every int64. -/
+/-- Full statement not yet proved: ISO 8601 durations round-trip for every int64 (whatever the float-branch parameter `ff` is: the writer never emits a fraction of an hour or minute, so the branch is not reached). -/
 def durISO_full : Prop :=
   ∀ (ff : FloatFrac) (d : Int64), parseDurationISO8601 ff (appendDurationISO8601 [] d.toInt) = (d.toInt, none, false)
 
